@@ -47,6 +47,9 @@ type peerSpec struct {
 	HdrMode string `json:"hdr_mode"` // ok|silent|wrongprev|short|long|wrongstop|dupjunk|wrongtype
 	CpMode  string `json:"cp_mode,omitempty"`  // own|true|lie@k|zero@k|short@k|empty (family R)
 	CpArg   int    `json:"cp_arg,omitempty"`
+	// CpSalt selects the false value of cp_mode lie: peers with the same
+	// salt serve the same false checkpoint (0: the peer's id)
+	CpSalt int64 `json:"cp_salt,omitempty"`
 	// FiltAll overrides the filter served at every height without a lie
 	// (""/true, silent, wrongblock, junk).
 	FiltAll string `json:"filt_all,omitempty"`
@@ -159,7 +162,11 @@ func (w *world) checkpoints(p *peerSpec, tip int) []*chainhash.Hash {
 	case "lie":
 		if p.CpArg < len(out) {
 			var x chainhash.Hash
-			rand.New(rand.NewSource(p.ID*977 + int64(p.CpArg))).Read(x[:])
+			salt := p.ID
+			if p.CpSalt != 0 {
+				salt = p.CpSalt
+			}
+			rand.New(rand.NewSource(salt*977 + int64(p.CpArg))).Read(x[:])
 			out[p.CpArg] = &x
 		}
 	case "zero":
